@@ -317,6 +317,21 @@ def run_units(sel, tier, prop, keep=False, jobs=None):
             max([timeout_s] + [u.get("timeout_quick", 0) for u in us])
         js, out, rc, wall = run_kani(d, hs, tmax, jobs, features=feat)
         raw_out[feat] = out
+        # a harness that ends within seconds without any check is a tool crash (CBMC killed, transient OOM): retry it once
+        if js is not None:
+            crashed = []
+            for hn in hs:
+                c0 = classify(js, out, hn)
+                if c0["status"] == "UNDECIDED" and c0["checks"] <= 0 and c0["time_s"] < 20 and "no checks reported" in c0["reason"]:
+                    crashed.append(hn)
+            if crashed:
+                js2, out2, _rc2, _w2 = run_kani(d, crashed, tmax, min(jobs, 4), features=feat)
+                if js2 is not None:
+                    for key in ("property_details", "cbmc"):
+                        js[key] = [x for x in js.get(key, []) if x["harness_id"] not in crashed] + js2.get(key, [])
+                    res = js.get("verification_results", {})
+                    res["results"] = [x for x in res.get("results", []) if x["harness_id"] not in crashed] + js2.get("verification_results", {}).get("results", [])
+                    out += out2
         compile_err = js is None
         for u in us:
             ur = {"status": "PASS", "reason": "", "harnesses": {}}
